@@ -69,10 +69,10 @@ fn registry(property: &str) -> Option<PropertyCheck> {
         "C13" => PropertyCheck { parts: vec![Box::new(Part(Arc::new(scn_cont::AllocConc)))], rule: RULE_T, quick_s: 25, thorough_s: 900, assumptions: vec![], checked_build: false },
         "C18" => PropertyCheck { parts: vec![Box::new(Part(Arc::new(scn_cont::RingLin { property: "C18", kinds: &scn_cont::STANDALONE })))], rule: RULE_T, quick_s: 25, thorough_s: 900, assumptions: vec![], checked_build: false },
         "C03" => PropertyCheck { parts: vec![Box::new(Part(Arc::new(scn_multi::C03)))], rule: RULE_T, quick_s: 25, thorough_s: 900, assumptions: vec![], checked_build: false },
-        "C08" => PropertyCheck { parts: vec![Box::new(Part(Arc::new(scn_hist::Hist { property: "C08", flavour: scn_hist::Flavour::Reservations })))], rule: RULE_H, quick_s: 20, thorough_s: 600, assumptions: vec![], checked_build: true },
+        "C08" => PropertyCheck { parts: vec![Box::new(Part(Arc::new(scn_hist::Hist { property: "C08", flavour: scn_hist::Flavour::Reservations }))), Box::new(Part(Arc::new(scn_held::ReserveConc)))], rule: RULE_TH, quick_s: 40, thorough_s: 600, assumptions: vec![], checked_build: true },
         "C10" => PropertyCheck { parts: vec![Box::new(Part(Arc::new(scn_hist::Hist { property: "C10", flavour: scn_hist::Flavour::Lifetimes }))), Box::new(Part(Arc::new(scn_life::ListenerConc))), Box::new(Part(Arc::new(scn_multi::C10Recycle)))], rule: RULE_TH, quick_s: 45, thorough_s: 600, assumptions: vec![], checked_build: false },
         "C15" => PropertyCheck { parts: vec![Box::new(Part(Arc::new(scn_hist::Hist { property: "C15", flavour: scn_hist::Flavour::WrapAround })))], rule: RULE_H, quick_s: 20, thorough_s: 600, assumptions: vec![], checked_build: true },
-        "C16" => PropertyCheck { parts: vec![Box::new(Part(Arc::new(scn_hist::Hist { property: "C16", flavour: scn_hist::Flavour::Rejections })))], rule: RULE_H, quick_s: 20, thorough_s: 600, assumptions: vec![], checked_build: false },
+        "C16" => PropertyCheck { parts: vec![Box::new(Part(Arc::new(scn_hist::Hist { property: "C16", flavour: scn_hist::Flavour::Rejections }))), Box::new(Part(Arc::new(scn_held::RejectConc)))], rule: RULE_TH, quick_s: 40, thorough_s: 600, assumptions: vec![], checked_build: false },
         "C05" => PropertyCheck { parts: vec![Box::new(Part(Arc::new(scn_hist::Hist { property: "C05", flavour: scn_hist::Flavour::Teardown }))), Box::new(Part(Arc::new(scn_held::HeldConc)))], rule: RULE_TH, quick_s: 40, thorough_s: 900, assumptions: vec![], checked_build: false },
         "C09" => PropertyCheck { parts: vec![Box::new(Part(Arc::new(scn_multi::C09)))], rule: RULE_T, quick_s: 25, thorough_s: 900, assumptions: vec![], checked_build: false },
         "C17" => PropertyCheck { parts: vec![Box::new(Part(Arc::new(scn_multi::C17)))], rule: RULE_T, quick_s: 25, thorough_s: 900, assumptions: vec![], checked_build: false },
